@@ -629,13 +629,12 @@ impl ErrorDiagnostic for ResolverDiagnostic<'_, RuntimeError> {
                             &file.source()[span.start.as_usize()..span.end.as_usize()];
                         // " = {}: " => 5 character + the size of the idx in base 10
                         let target_width = 120 - 5 - (i + 1).ilog10() as usize;
-                        let last_char_idx = error_cause
-                            .char_indices()
+                        // Cut at a character (not byte) position; the span may also be empty.
+                        let error_cause = error_cause
+                            .chars()
                             .take(target_width)
-                            .map(|(i, _)| i)
-                            .last()
-                            .unwrap_or_default();
-                        let error_cause = &error_cause[..=last_char_idx].replace('\n', "\\n");
+                            .collect::<String>()
+                            .replace('\n', "\\n");
 
                         format!("{i}: {error_cause}\n\tat {fn_name} - {file_name}:{line}:{col}")
                     },
